@@ -26,6 +26,10 @@ Theorem C02_scans_are_prefix : forall c sched,
 Proof. exact scans_are_prefix. Qed.
 Print Assumptions C02_scans_are_prefix.
 
+(* ENVIRONMENT ASSUMPTION of 2, 2b (and of the C07 termination theorems): every call of the underlying
+   io.Reader.Read, of dataDecoder.Decode and of the user's Filter* callbacks RETURNS: in the model the
+   reader's read step and the worker's decode step are always enabled (see C07_close_waits_for_read). *)
+
 (* 2. NO DEADLOCK.  In every reachable state in which the scanning goroutine is inside a call
    (blocked in Next during Scan, or in the wg.Wait of Close), some goroutine — reader, a worker,
    the serializer or the consumer itself — has an enabled step: nobody waits for the environment.
@@ -64,6 +68,14 @@ Theorem C02_completes : forall c s, wf_cfg c = true -> current c = true -> reach
   delivered s = expected (c_inp c) /\ final_err (c_inp c) = s_err s.
 Proof. exact T_completes. Qed.
 Print Assumptions C02_completes.
+
+(* and a Scan that returns false without Close / cancellation of the caller's context HAS recorded an
+   error; so with 2b (each call returns) and 1 (at most |expected| successful Scans): every run
+   without Close/cancel reaches a state to which C02_completes applies *)
+Theorem C02_false_scan_records : forall c l s s' o v, c_nextctx c = true -> step c l s = Some (s', o) -> In (OScan false v) o ->
+  closed s' = false -> pcancelled s' = false -> s_err s' <> 0%Z.
+Proof. exact T_false_scan_records. Qed.
+Print Assumptions C02_false_scan_records.
 
 (* specification side: the objects of the first m file blocks, all but the last of them free of
    errors, are a prefix of the file's elements (for every well-formed input and every m) *)
